@@ -53,6 +53,20 @@ func provablyNonNilError(fn *ssa.Function, v ssa.Value, eAliases map[ssa.Value]b
 			if id == "errors.New" || id == "fmt.Errorf" || id == "github.com/massnetorg/mass-core/errors.New" {
 				return
 			}
+			// a local failure helper that logs and hands the error back
+			if g := r.Call.StaticCallee(); g != nil && (g.Parent() != nil || gNewFuncs[g]) {
+				for i, a := range r.Call.Args {
+					isAl := false
+					valueOrigins(fn, a, func(ar ssa.Value) {
+						if eAliases[ar] {
+							isAl = true
+						}
+					})
+					if isAl && returnsItsParam(g, i) {
+						return
+					}
+				}
+			}
 			// conversion helper taking the error as an argument
 			for _, a := range r.Call.Args {
 				conv := false
@@ -87,6 +101,22 @@ func provablyNonNilError(fn *ssa.Function, v ssa.Value, eAliases map[ssa.Value]b
 			ok = false
 			why = "returns captured variable " + r.Name() + " whose value comes from outside this path (may be nil)"
 		case *ssa.Extract:
+			// `return fail(err)` with a local failure helper returning (zero, err)
+			if cl, isC := r.Tuple.(*ssa.Call); isC {
+				if g := cl.Call.StaticCallee(); g != nil && (g.Parent() != nil || gNewFuncs[g]) && r.Index == g.Signature.Results().Len()-1 {
+					for i, a := range cl.Call.Args {
+						isAl := false
+						valueOrigins(fn, a, func(ar ssa.Value) {
+							if eAliases[ar] {
+								isAl = true
+							}
+						})
+						if isAl && returnsItsParam(g, i) {
+							return
+						}
+					}
+				}
+			}
 			ok = false
 			why = "returns a different call's error result (" + r.Tuple.String() + ")"
 		case *ssa.MakeInterface:
@@ -212,6 +242,12 @@ func leakReturnsTheError(fn *ssa.Function, region map[*ssa.BasicBlock]bool, eAli
 				case *ssa.Call, *ssa.Store, *ssa.MapUpdate, *ssa.Send, *ssa.Go, *ssa.Defer, *ssa.If, *ssa.Jump, *ssa.RunDefers:
 					if _, isRD := in.(*ssa.RunDefers); isRD {
 						continue
+					}
+					// results spilled to local cells because of a deferred call (`*res = x; rundefers; return *res`)
+					if st, isSt := in.(*ssa.Store); isSt {
+						if a, isA := st.Addr.(*ssa.Alloc); isA && a.Parent() == fn {
+							continue
+						}
 					}
 					return false
 				}
@@ -382,6 +418,35 @@ func runErrflow(c *Ctx, cfg errflowCfg) {
 
 func passedToClosureResult(fn *ssa.Function, al map[ssa.Value]bool) bool {
 	return false
+}
+
+// returnsItsParam: g (a local closure, or a helper the reference tree does not have) hands its idx-th
+// parameter back as its last result on every return — `fail := func(err error) error { log; return err }`.
+func returnsItsParam(g *ssa.Function, idx int) bool {
+	if g == nil || len(g.Blocks) == 0 || idx < 0 || idx >= len(g.Params) {
+		return false
+	}
+	rets := returnsOf(g)
+	if len(rets) == 0 {
+		return false
+	}
+	for _, r := range rets {
+		if len(r.Results) == 0 {
+			return false
+		}
+		ok := true
+		n := 0
+		valueOrigins(g, r.Results[len(r.Results)-1], func(root ssa.Value) {
+			n++
+			if root != ssa.Value(g.Params[idx]) {
+				ok = false
+			}
+		})
+		if !ok || n == 0 {
+			return false
+		}
+	}
+	return true
 }
 
 // checkValueConversion: `v, _ := callee(...)`; every nil test of v must, on the nil edge, return a
